@@ -248,13 +248,50 @@ func cycle(t *lib.Trace, r *rand.Rand, cyc int) {
 	admin("create t1 (a, b, c, d, e) key(a) index(b) index unique(d) index(c) in tgt cascade")
 	admin("create t2 (k, big, z) key(k)")
 	admin("create t3 (k, v) key(k)") // stays empty
+	// a table whose name is a prefix / extension of the words the dump format reserves
+	odd := []string{"viewsx", "views2", "view", "tables", "columns", "indexes", "viewsviews"}[r.Intn(7)]
+	admin(fmt.Sprintf("create %s (k, v) key(k) index(v)", odd))
+	for x := r.Intn(4); x > 0; x-- {
+		action(fmt.Sprintf("insert { k: %d, v: 'odd%d' } into %s", x, 9-x, odd))
+	}
+	defer rmAll(odd + ".su")
 	// several keys; the smallest key (fewest columns) is NOT the first index
 	admin("create t4 (r, n, code, v) key(r,n) index(v) key(code) index unique(v,code)")
-	if r.Intn(2) == 0 {
-		admin("view v1 = t1 where a > 1")
+	// 0-5 views (mostly two or more) with definitions of different lengths
+	nviews := []int{0, 1, 2, 2, 3, 4, 5}[r.Intn(7)]
+	for v := 0; v < nviews; v++ {
+		def := []string{"t1 where a > 1", "t2 join tgt", "tgt", "t1 where a > 3 and a < 17 and b isnt 2",
+			"t2 where k > 10"}[r.Intn(5)]
+		for x := r.Intn(4); x > 0; x-- {
+			def += fmt.Sprintf(" where %s isnt %d", []string{"a", "k", "c"}[r.Intn(3)], r.Intn(100000))
+		}
+		admin(fmt.Sprintf("view v%d_%s = %s", v, strings.Repeat("n", r.Intn(12)), def))
 	}
-	if r.Intn(3) == 0 {
-		admin("view v2 = t2 join tgt")
+	t.Count(fmt.Sprintf("views=%d", nviews))
+	if cyc%4 == 0 {
+		// row counts around the block size of the sort used by load / compact
+		nrows := []int{4096, 4095, 4097, 8192}[(cyc/4)%4]
+		admin("create t5 (k, s) key(k) index(s)")
+		e := try(func() {
+			for base := 0; base < nrows; base += 512 {
+				ut := db.NewUpdateTran()
+				for j := base; j < base+512 && j < nrows; j++ {
+					var rb core.RecordBuilder
+					rb.Add(core.IntVal(j))
+					rb.Add(core.SuStr(fmt.Sprintf("s%05d", (j*7919)%nrows))) // another order than k
+					ut.Output(th, "t5", rb.Build())
+				}
+				if s := ut.Complete(); s != "" {
+					panic(s)
+				}
+			}
+		})
+		if e != "" {
+			panic("t5: " + e)
+		}
+		hist = append(hist, fmt.Sprintf("%d rows {k: j, s: perm(j)} into t5", nrows))
+		t.Count(fmt.Sprintf("blocksize-table rows=%d", nrows))
+		defer rmAll("t5.su")
 	}
 	nsteps := 25 + r.Intn(30)
 	for step := 0; step < nsteps; step++ {
@@ -758,7 +795,7 @@ func crafted(t *lib.Trace, r *rand.Rand, i int) {
 func craftedDb(t *lib.Trace, r *rand.Rand, i int) {
 	ntables := 2 + r.Intn(3)
 	dupTable := -1
-	if r.Intn(4) != 0 {
+	if r.Intn(2) == 0 {
 		dupTable = ntables - 1 // mostly the last one
 		if r.Intn(4) == 0 {
 			dupTable = r.Intn(ntables)
@@ -770,21 +807,29 @@ func craftedDb(t *lib.Trace, r *rand.Rand, i int) {
 	sb.Write([]byte{0, 0, 0, 0})
 	sizes := make([]int, ntables)
 	var what []string
+	// table names, some near the words the format reserves; in name order as dump writes them
+	pool := []string{"cr0", "cr1", "cr2", "cr3", "columns", "indexes", "tables", "view", "views2", "viewsx", "viewsviews"}
+	r.Shuffle(len(pool), func(a, b int) { pool[a], pool[b] = pool[b], pool[a] })
+	names := append([]string{}, pool[:ntables]...)
+	sort.Strings(names)
 	for ti := 0; ti < ntables; ti++ {
-		n := []int{0, 3, 50, 2000}[r.Intn(4)]
+		n := []int{0, 3, 50, 2000, 4095, 4096, 4097, 8192}[r.Intn(8)]
 		if ti == ntables-1 && r.Intn(2) == 0 {
 			n = 20000 + r.Intn(20000)
+			if r.Intn(3) == 0 {
+				n = 4096 * (5 + r.Intn(4)) // a multiple of the sort block size
+			}
 		}
 		if ti == dupTable && n < 2 {
 			n = 2
 		}
 		sizes[ti] = n
-		fmt.Fprintf(&sb, "%scr%d (k,a) key(k) index(a)\n", prefix, ti)
+		fmt.Fprintf(&sb, "%s%s (k,a) key(k) index(a)\n", prefix, names[ti])
 		var recs []string
 		for j := 0; j < n; j++ {
 			var rb core.RecordBuilder
 			rb.Add(core.SuStr(fmt.Sprintf("k%07d", j)))
-			rb.Add(core.SuStr(fmt.Sprint("a", j%7)))
+			rb.Add(core.SuStr(fmt.Sprint("a", (j*31)%97))) // secondary index in another order
 			recs = append(recs, string(rb.Build()))
 		}
 		if ti == dupTable {
@@ -796,7 +841,7 @@ func craftedDb(t *lib.Trace, r *rand.Rand, i int) {
 			recs[at] = recs[at-1]
 		}
 		sb.WriteString(frames(recs))
-		what = append(what, fmt.Sprintf("cr%d:%d rows", ti, n))
+		what = append(what, fmt.Sprintf("%s:%d rows", names[ti], n))
 	}
 	rmAll("cd.su", "cd.db")
 	os.WriteFile("cd.su", []byte(sb.String()), 0644)
@@ -829,14 +874,17 @@ func craftedDb(t *lib.Trace, r *rand.Rand, i int) {
 	} else {
 		rt := db.NewReadTran()
 		for ti := 0; ti < ntables; ti++ {
-			info := rt.GetInfo(fmt.Sprintf("cr%d", ti))
+			info := rt.GetInfo(names[ti])
 			if info == nil {
-				problem += fmt.Sprintf("; table cr%d is missing from the loaded database", ti)
+				problem += fmt.Sprintf("; table %s is missing from the loaded database", names[ti])
 			} else if info.Nrows != sizes[ti] {
-				problem += fmt.Sprintf("; table cr%d has %d rows", ti, info.Nrows)
+				problem += fmt.Sprintf("; table %s has %d rows", names[ti], info.Nrows)
 			}
 		}
 		db.Close()
+	}
+	if ce := db19.CheckDatabase("cd.db", true); ce != nil && problem == "" {
+		problem = "CheckDatabase(full) of the loaded database: " + ce.Error()
 	}
 	if problem != "" {
 		sig := "loaddb-incomplete"
